@@ -112,7 +112,7 @@ fn seq_spec(ctx: &Ctx, w: i64) -> SeqSpec {
         world: Default::default(),
         prefix: vec![],
         alphabet,
-        depth: if quick { 3 } else { 5 },
+        depth: if quick { 4 } else { 5 },
         allow: Some(Arc::new(|_h, present, a| match a {
             Op::Upsert { k, value: false, .. } => present.contains(k),
             _ => true,
